@@ -540,8 +540,9 @@ def sig_has_gstar_segment(W, P, pats, fl: int) -> bool:
 
 def sig_empty_part(G, W, P, pats, fl: int) -> bool:
     """EXTGLOB on and some segment of some pattern can match the empty string (`*(a)`, `?(a)`, `@(|a)` …):
-    compiled with `_EXTMATCHBASE` still set, such a part (or the whole right-anchored regex) accepts any
-    name, because the implicit `**` swallows the name and the part matches what is left: nothing"""
+    the right-anchored regex of `match()` (`_EXTMATCHBASE`) then accepts any name, because the implicit
+    `**` swallows the name and the segment matches what is left: nothing.  (The walker's per-part regexes
+    were compiled with the flag still set and did the same — G6, repaired.)"""
     if not fl & P.EXTGLOB:
         return False
     gs, gsl = bool(fl & P.GLOBSTAR), bool(fl & P.GLOBSTARLONG)
@@ -608,8 +609,8 @@ def rglob_public_equivalent(P, pats, fl: int):
     SPLIT/BRACE/NEGATE), the pattern is relative and non-empty:
       * GLOBSTAR/GLOBSTARLONG on     → glob('**/' + p)  ('***/' under GLOBSTARLONG|FOLLOW)
       * neither, and no `**` in p    → glob('**/' + p, GLOBSTAR)
-    (glob(p, MATCHBASE) is deliberately not used as the reference: it shares the per-part prefix
-    defect, KF-PARTPREFIX)
+    (glob(p, MATCHBASE) is deliberately not used as the reference: it shared the per-part prefix
+    defect — G6, the walker half of KF-PARTPREFIX, repaired — and is the same code path as rglob)
     Returns (pattern, flags) or None."""
     if not isinstance(pats, str) or pats == '' or pats.startswith('/') or pats.startswith('\\'):
         return None
